@@ -290,11 +290,12 @@ Definition fake_exponential_fuel (fuel : positive) (factor numerator denominator
 (* the explicit fuel bound (FeesProofs.fake_exponential_terminates): with
    i0 = 2*numerator/denominator + 1 the accumulator at least halves from
    iteration i0 on, and before that it grows by at most a factor max(numerator,1)
-   per iteration *)
+   per iteration.  (Absolute values only matter outside the theorem's guard, for the
+   negative arguments of the malformed correspondence stream.) *)
 Definition fe_fuel (factor numerator denominator : Z) : positive :=
-  let i0 := 2 * numerator / denominator + 1 in
+  let i0 := 2 * Z.abs numerator / Z.abs denominator + 1 in
   let a := Z.log2 (factor * denominator) + 1 in
-  let lm := Z.log2 (Z.max numerator 1) + 1 in
+  let lm := Z.log2 (Z.max (Z.abs numerator) 1) + 1 in
   Z.to_pos (i0 + a + i0 * lm + 2).
 
 Definition fake_exponential (factor numerator denominator : Z) : res Z :=
